@@ -25,9 +25,7 @@ package server
 //   - the manager's goroutines are gone (the bubble would otherwise never end: checked by a goroutine census).
 
 import (
-	"bytes"
 	"context"
-	"encoding/binary"
 	"errors"
 	"fmt"
 	"log/slog"
@@ -75,138 +73,6 @@ func (c c07hCase) String() string {
 // and the connect-retry time; on the second connection the remote always answers with a valid OPEN)
 const c07hSteps = 6
 
-type c07hPark struct {
-	mu       sync.Mutex
-	want     int // record index to park at (-1: none)
-	n        int
-	frozen   bool // records after the stop was issued are not counted and never park
-	reached  chan struct{}
-	release  chan struct{}
-	records  []string
-	parkedAt string
-}
-
-func (p *c07hPark) site(msg string) {
-	p.mu.Lock()
-	if p.frozen {
-		p.mu.Unlock()
-		return
-	}
-	i := p.n
-	p.n++
-	p.records = append(p.records, msg)
-	hit := i == p.want
-	if hit {
-		p.parkedAt = msg
-		p.frozen = true
-	}
-	p.mu.Unlock()
-	if hit {
-		close(p.reached)
-		<-p.release
-	}
-}
-
-func (p *c07hPark) freeze() {
-	p.mu.Lock()
-	p.frozen = true
-	p.mu.Unlock()
-}
-
-type c07hHandler struct{ p *c07hPark }
-
-func (h c07hHandler) Enabled(context.Context, slog.Level) bool { return true }
-func (h c07hHandler) WithAttrs([]slog.Attr) slog.Handler       { return h }
-func (h c07hHandler) WithGroup(string) slog.Handler            { return h }
-func (h c07hHandler) Handle(_ context.Context, r slog.Record) error {
-	h.p.site("log:" + r.Message)
-	return nil
-}
-
-// c07hRemote is the remote end of one dialled connection: it accumulates everything the daemon writes.
-type c07hRemote struct {
-	conn      net.Conn
-	mu        sync.Mutex
-	buf       bytes.Buffer
-	eof       bool
-	selfClose bool
-	acted     bool
-	q         chan []byte // writes go through one goroutine: two blocked net.Pipe writers would contend on a mutex
-}
-
-func (r *c07hRemote) write(b []byte) {
-	r.mu.Lock()
-	if r.q == nil {
-		r.q = make(chan []byte, 16)
-		q := r.q
-		go func() {
-			for b := range q {
-				if _, err := r.conn.Write(b); err != nil {
-					for range q {
-					}
-					return
-				}
-			}
-		}()
-	}
-	q := r.q
-	r.mu.Unlock()
-	q <- b
-}
-
-func (r *c07hRemote) shut() {
-	r.mu.Lock()
-	if r.q != nil {
-		close(r.q)
-		r.q = nil
-	}
-	r.mu.Unlock()
-	r.conn.Close()
-}
-
-func (r *c07hRemote) reader() {
-	b := make([]byte, 4096)
-	for {
-		n, err := r.conn.Read(b)
-		r.mu.Lock()
-		r.buf.Write(b[:n])
-		if err != nil {
-			r.eof = true
-			r.mu.Unlock()
-			return
-		}
-		r.mu.Unlock()
-	}
-}
-
-func (r *c07hRemote) closed() bool {
-	r.mu.Lock()
-	defer r.mu.Unlock()
-	return r.eof
-}
-
-// messages splits what the daemon wrote into BGP message types (0xff: trailing garbage / partial message).
-func (r *c07hRemote) messages() (types []uint8, notif [][2]uint8) {
-	r.mu.Lock()
-	b := append([]byte(nil), r.buf.Bytes()...)
-	r.mu.Unlock()
-	for len(b) > 0 {
-		if len(b) < 19 {
-			return append(types, 0xff), notif
-		}
-		l := int(binary.BigEndian.Uint16(b[16:18]))
-		if l < 19 || l > len(b) {
-			return append(types, 0xff), notif
-		}
-		types = append(types, b[18])
-		if b[18] == bgp.BGP_MSG_NOTIFICATION && l >= 21 {
-			notif = append(notif, [2]uint8{b[19], b[20]})
-		}
-		b = b[l:]
-	}
-	return types, notif
-}
-
 type c07hResult struct {
 	records   []string
 	parkedAt  string
@@ -218,8 +84,8 @@ type c07hResult struct {
 
 func c07hRun(t *testing.T, c c07hCase) (res c07hResult) {
 	synctest.Test(t, func(t *testing.T) {
-		park := &c07hPark{want: c.Park, reached: make(chan struct{}), release: make(chan struct{})}
-		var remotes []*c07hRemote
+		park := &simPark{want: c.Park, reached: make(chan struct{}), release: make(chan struct{})}
+		var remotes []*simParkRemote
 		var rmu sync.Mutex
 		dialAns := make(chan net.Conn, 1)
 		dialPending := false
@@ -261,7 +127,7 @@ func c07hRun(t *testing.T, c c07hCase) (res c07hResult) {
 		pConf.Timers.Config.KeepaliveInterval = 30
 		pConf.Timers.Config.ConnectRetry = 5
 
-		f := newFSM(gConf, pConf, bgp.BGP_FSM_ACTIVE, slog.New(c07hHandler{park}))
+		f := newFSM(gConf, pConf, bgp.BGP_FSM_ACTIVE, slog.New(simParkAll{park}))
 		f.h = &fsmHandler{fsm: f, outgoing: channels.NewInfiniteChannel(), callback: func(*fsmMsg) {}}
 		ctx, cancel := context.WithCancel(context.Background())
 		synctest.Wait()
@@ -270,7 +136,7 @@ func c07hRun(t *testing.T, c c07hCase) (res c07hResult) {
 		ocm := newOutGoingConnManager(ctx, f) // what active() does on entry
 		f.outgoingConnMgr = ocm
 
-		var remote *c07hRemote
+		var remote *simParkRemote
 		step := func(i int) {
 			switch i {
 			case 1:
@@ -289,7 +155,7 @@ func c07hRun(t *testing.T, c c07hCase) (res c07hResult) {
 					return
 				}
 				sc, bc := simPipe([4]byte{10, 0, 0, 254}, [4]byte{10, 0, 0, 1}, 40000, 179)
-				remote = &c07hRemote{conn: bc}
+				remote = &simParkRemote{conn: bc}
 				remotes = append(remotes, remote)
 				go remote.reader()
 				dialAns <- sc
@@ -350,7 +216,7 @@ func c07hRun(t *testing.T, c c07hCase) (res c07hResult) {
 			}
 		}
 		// which connections are still open when the stop is issued
-		openAtStop := map[*c07hRemote]bool{}
+		openAtStop := map[*simParkRemote]bool{}
 		for _, r := range remotes {
 			if !r.closed() {
 				openAtStop[r] = true
